@@ -24,6 +24,7 @@ import (
 func init() {
 	mon.Register(&mon.Check{
 		ID:        "C17",
+		Boost:     10,
 		Batches:   func(tier string) int { return 16 },
 		Run:       runC17,
 		Technique: "event-order runtime monitor over a totally ordered log of every listener/connection/handler call of the real Serve loop, with virtual time for deadlines; cancellation is injected at generated moments (before accept, between accept and the goroutine's first action, during blocked reads, inside gated handlers, between reply and return)",
